@@ -3,7 +3,20 @@ The network is an uninterpreted function; spec/infer/InferTrace.tla states the r
 satisfy w.r.t. the solo decode of each instance (with the float rule "rounding that does not flip a selection":
 steps whose top-2 margin is below 2e-5 are ties after which the row is no longer constrained).
 Bundled constructive policies (random weights, eval mode) are decoded solo, next to copies, next to unrelated
-instances, at every position of shuffled batches of several sizes; TLC validates every record."""
+instances, at every position of shuffled batches of several sizes; TLC validates every record.
+
+Policy kinds (see `policy_matrix`):
+  std    ConstructivePolicy protocol: one action sequence / reward / summed log-likelihood per row; margins from the
+         teacher-forced reference loop (encoder once, decoder module per step) when the policy has that split
+  mdam   MDAM decodes P paths per instance and returns [B, P] rewards / log-likelihoods: one record per (instance, path);
+         the per-path actions are observed through the environment handle (c11_nets._Tap)
+  ffsp   MultiStageFFSPPolicy (own loop, one MatNet encoder/decoder per stage)
+Best-of-K records (reward only): multi-start greedy + select_best, and for PolyNet `num_samples=K` greedy + select_best
+(replica j of an instance decodes with strategy vector j).
+Networks that draw random numbers inside the forward pass: MatNet's initial column embedding is a random one-hot
+assignment; for this check the assignment is drawn from a generator keyed by the instance (KeyedOneHot), i.e. it is
+treated as part of the instance, and everything downstream must then be per-instance.  The generator is re-seeded
+before every decode so that the step-wise sampled gate of the light MVMoE decoder sees the same draws."""
 import logging
 import random
 import time
@@ -13,46 +26,134 @@ import torch
 
 from .. import verdict
 from .common import validate_records
-from .c11_nets import masked_logp
+from .c11_nets import (SCHED, _Heat, _Tap, _l2d_attn_composed, ffsp_step_logp, masked_logp, mdam_step_logp, moe_kwargs,
+                       trained_like_gates)
 
 warnings.filterwarnings("ignore")
 INV = ["M_Action", "M_Pad", "M_Reward", "M_LL", "End"]
 MULTISTART = ("tsp", "cvrp", "sdvrp", "op", "pctsp", "cvrptw")   # envs decoded with multi-start greedy + select_best as well
+KSTART = 3
+BIG = 1_000_000
+
+
+class KeyedOneHot(torch.nn.Module):
+    """MatNetInitEmbedding (mode RandomOneHot) with the random assignment of a row drawn from a generator keyed by the
+    row's cost matrix: the same instance gets the same embedding wherever it sits in whatever batch"""
+
+    def __init__(self, embed_dim):
+        super().__init__()
+        self.embed_dim = embed_dim
+
+    def forward(self, td):
+        dmat = td["cost_matrix"]
+        b, r, c = dmat.shape
+        row_emb = torch.zeros(b, r, self.embed_dim)
+        col_emb = torch.zeros(b, c, self.embed_dim)
+        for i in range(b):
+            g = torch.Generator().manual_seed(int(float(dmat[i].double().sum()) * 1e6) % 2147483647)
+            col_emb[i, torch.arange(c), torch.rand(c, generator=g).argsort()] = 1.0
+        return row_emb, col_emb, dmat
+
+
+def keyed_matnet(policy):
+    encs = list(policy.encoders) if hasattr(policy, "encoders") else [policy.encoder]
+    for e in encs:
+        e.init_embedding = KeyedOneHot(e.init_embedding.embed_dim)
+    return policy
+
+
+def _e(name, env, mk, **kw):
+    d = {"name": name, "env": env, "mk": mk, "gp": None, "gpx": {}, "kind": "std", "prep": None, "quick": False,
+         "best_of": None,          # None | "multistart" | "multisample"
+         "pad": 1}                 # the only action of a finished row, 1-based (depot / first node / scheduling no-op = action 0)
+    d.update(kw)
+    return d
 
 
 def policy_matrix(tier):
     from rl4co.models.zoo import AttentionModelPolicy
+    quick = tier == "quick"
     kw = dict(embed_dim=32, num_encoder_layers=2, num_heads=2)
-    out = [("AM", e, (lambda e=e: AttentionModelPolicy(env_name=e, **kw))) for e in
-           (("tsp", "cvrp", "op", "pdp", "pctsp", "sdvrp", "cvrptw", "mtsp", "svrp", "mtvrp") if tier == "quick" else
-            ("tsp", "cvrp", "op", "pdp", "pctsp", "spctsp", "sdvrp", "cvrptw", "atsp", "mtsp", "svrp", "mtvrp"))]
+    qenvs = ("tsp", "cvrp", "op", "pdp", "pctsp", "sdvrp", "cvrptw", "mtsp", "svrp", "mtvrp")
+    # (the attention model has no initial embedding for ATSP's cost matrix: MatNet is the ATSP policy)
+    out = [_e("AM", e, (lambda e=e: AttentionModelPolicy(env_name=e, **kw)), quick=e in qenvs,
+              best_of="multistart" if e in MULTISTART else None)
+           for e in ("tsp", "cvrp", "op", "pdp", "pctsp", "spctsp", "sdvrp", "cvrptw", "mtsp", "svrp", "mtvrp")]
+    # OP with a generous budget: tours end at the depot while other nodes are still affordable, so a finished row that is
+    # stepped on next to slower batch-mates has a real choice
+    out.append(_e("AM", "op", lambda: AttentionModelPolicy(env_name="op", **kw), gpx={"max_length": 4.0}, quick=True, best_of="multistart"))
     try:
         from rl4co.models.zoo import HeterogeneousAttentionModelPolicy
-        out.append(("HAM", "pdp", lambda: HeterogeneousAttentionModelPolicy(env_name="pdp", **kw)))
+        out.append(_e("HAM", "pdp", lambda: HeterogeneousAttentionModelPolicy(env_name="pdp", **kw), quick=True))
     except Exception:
         pass
-    if tier != "quick":
-        try:
-            from rl4co.models.zoo import PointerNetworkPolicy
-            out.append(("PtrNet", "tsp", lambda: PointerNetworkPolicy(env_name="tsp", embed_dim=32, hidden_dim=32)))
-        except Exception:
-            pass
-        try:
-            from rl4co.models.zoo import MatNetPolicy
-            out.append(("MatNet", "atsp", lambda: MatNetPolicy(env_name="atsp", embed_dim=32, num_encoder_layers=1, num_heads=2)))
-        except Exception:
-            pass
-        try:
-            from rl4co.models.zoo import PolyNetPolicy
-            out.append(("PolyNet", "tsp", lambda: PolyNetPolicy(env_name="tsp", k=2, embed_dim=32, num_encoder_layers=1, num_heads=2)))
-        except Exception:
-            pass
-        try:
-            from rl4co.models.zoo import MDAMPolicy
-            out.append(("MDAM", "tsp", lambda: MDAMPolicy(env_name="tsp", embed_dim=32, num_encoder_layers=1, num_heads=2)))
-        except Exception:
-            pass
-    return out
+    try:
+        from rl4co.models.zoo import PointerNetworkPolicy
+        out.append(_e("PtrNet", "tsp", lambda: PointerNetworkPolicy(env_name="tsp", embed_dim=32, hidden_dim=32)))
+    except Exception:
+        pass
+    for e in ("tsp", "cvrp"):
+        out.append(_e("POMO", e, (lambda e=e: AttentionModelPolicy(env_name=e, normalization="instance", use_graph_context=False, **kw)),
+                      best_of="multistart"))
+    try:
+        from rl4co.models.zoo.symnco.policy import SymNCOPolicy
+        out.append(_e("SymNCO", "tsp", lambda: SymNCOPolicy(env_name="tsp", **kw), quick=True))
+        out.append(_e("SymNCO", "cvrp", lambda: SymNCOPolicy(env_name="cvrp", **kw)))
+    except Exception:
+        pass
+    try:
+        from rl4co.models.zoo.matnet.policy import MatNetPolicy, MultiStageFFSPPolicy
+        out.append(_e("MatNet", "atsp", lambda: MatNetPolicy(env_name="atsp", **kw), prep=keyed_matnet, quick=True, best_of="multistart"))
+        out.append(_e("MatNetFFSP", "ffsp", lambda: MultiStageFFSPPolicy(stage_cnt=2, embed_dim=32, num_heads=2, num_encoder_layers=1,
+                                                                          feedforward_hidden=64),
+                      kind="ffsp", prep=keyed_matnet, gp={"num_stage": 2, "num_machine": 2, "num_job": 5, "flatten_stages": False},
+                      pad=6))      # the flow shop's no-op is action num_job
+    except Exception:
+        pass
+    try:
+        from rl4co.models.zoo.polynet.policy import PolyNetPolicy
+        out.append(_e("PolyNet", "tsp", lambda: PolyNetPolicy(env_name="tsp", k=KSTART, **kw), quick=True, best_of="multisample"))
+        out.append(_e("PolyNet", "cvrp", lambda: PolyNetPolicy(env_name="cvrp", k=KSTART, **kw), best_of="multisample"))
+        out.append(_e("PolyNet(MatNet)", "atsp", lambda: PolyNetPolicy(env_name="atsp", k=KSTART, encoder_type="MatNet", **kw),
+                      prep=keyed_matnet, best_of="multisample"))
+    except Exception:
+        pass
+    try:
+        from rl4co.models.zoo.mdam.policy import MDAMPolicy
+        mk_ = dict(embed_dim=32, num_encoder_layers=2, num_heads=2, num_paths=3)
+        out.append(_e("MDAM", "tsp", lambda: MDAMPolicy(env_name="tsp", **mk_), kind="mdam"))
+        out.append(_e("MDAM", "cvrp", lambda: MDAMPolicy(env_name="cvrp", **mk_), kind="mdam"))
+    except Exception:
+        pass
+    try:
+        from rl4co.models.zoo.l2d.policy import L2DPolicy, L2DPolicy4PPO
+        lk = dict(embed_dim=32, num_encoder_layers=2)
+        sched = {"num_jobs": 5, "num_machines": 3}
+        out.append(_e("L2D", "fjsp", lambda: L2DPolicy(env_name="fjsp", **lk), gp=sched, quick=True))
+        out.append(_e("L2D", "jssp", lambda: L2DPolicy(env_name="jssp", **lk), gp=sched, quick=True))
+        out.append(_e("L2D(stepwise)", "fjsp", lambda: L2DPolicy(env_name="fjsp", stepwise_encoding=True, **lk), gp=sched))
+        out.append(_e("L2D4PPO", "jssp", lambda: L2DPolicy4PPO(env_name="jssp", **lk), gp=sched))
+        for e in ("fjsp", "jssp"):
+            out.append(_e("L2DAttn(actor in L2DDecoder)", e, (lambda e=e: _l2d_attn_composed(e)), gp=sched))
+    except Exception:
+        pass
+    mt = {"variant_preset": "all"}
+    out.append(_e("MVMoE", "mtvrp", lambda: AttentionModelPolicy(env_name="mtvrp", moe_kwargs=moe_kwargs(False), normalization="instance",
+                                                                 use_graph_context=False, **kw), gpx=mt, prep=trained_like_gates, quick=True))
+    # light decoder: the dense-or-MoE gate is computed from the MEAN over all rows of the batch (problem-level gating)
+    out.append(_e("MVMoE(light)", "mtvrp", lambda: AttentionModelPolicy(env_name="mtvrp", moe_kwargs=moe_kwargs(True), normalization="instance",
+                                                                        use_graph_context=False, **kw), gpx=mt, prep=trained_like_gates))
+    try:
+        from rl4co.models.zoo.nargnn.policy import NARGNNPolicy
+        out.append(_e("NARGNN(stub encoder)", "tsp", lambda: NARGNNPolicy(encoder=_Heat(), env_name="tsp"), best_of="multistart"))
+    except Exception:
+        pass
+    return [e for e in out if e["quick"] or not quick]
+
+
+def _margin(lp):
+    top = torch.topk(lp, min(2, lp.numel())).values
+    return BIG if top.numel() < 2 or not torch.isfinite(top[1]) else int(round(float(top[0] - top[1]) * 1e6))
 
 
 def margins(policy, env, td1, actions):
@@ -65,9 +166,7 @@ def margins(policy, env, td1, actions):
         out = []
         for t in range(actions.shape[1]):
             logits, mask = policy.decoder(td, hidden, 0)
-            lp = masked_logp(logits, mask, policy.tanh_clipping, policy.temperature)[0]
-            top = torch.topk(lp, min(2, lp.numel())).values
-            out.append(1_000_000 if top.numel() < 2 or not torch.isfinite(top[1]) else int(round(float(top[0] - top[1]) * 1e6)))
+            out.append(_margin(masked_logp(logits, mask, policy.tanh_clipping, policy.temperature)[0]))
             td.set("action", actions[:, t])
             td = env.step(td)["next"]
         return out
@@ -75,39 +174,77 @@ def margins(policy, env, td1, actions):
         return None
 
 
-def decode(policy, env, td, mode="greedy"):
+def margins_mdam(policy, env, td1, actions, p):
+    dec = policy.decoder
+    enc = policy.encoder(policy.init_embedding(td1.clone()))[0]
+    fixed = dec._precompute(enc.clone(), path_index=p)
+    td = td1.clone()
+    out = []
+    for t in range(actions.shape[1]):
+        lp, _ = mdam_step_logp(dec, fixed, td, p)
+        out.append(_margin(lp[0]))
+        td.set("action", actions[:, t])
+        td = env.step(td)["next"]
+    return out
+
+
+def margins_ffsp(policy, env, td1, actions):
+    torch.manual_seed(SEED)
+    td = policy.pre_forward(td1.clone(), env, 1)
+    out = []
+    for t in range(actions.shape[1]):
+        out.append(_margin(ffsp_step_logp(policy, td)[0]))
+        td.set("action", actions[:, t])
+        td = env.step(td)["next"]
+    return out
+
+
+SEED = 0
+
+
+def decode(policy, env, td, mode="greedy", kind="std"):
+    """list of streams {actions [B, T], reward [B], ll [B]} (one stream, P for MDAM)"""
     with torch.no_grad():
+        torch.manual_seed(SEED)
+        if kind == "mdam":
+            tap = _Tap(env)
+            o = policy(td.clone(), tap, phase="test", decode_type="greedy")
+            return [{"actions": tap.paths[p], "reward": o["reward"][:, p], "log_likelihood": o["log_likelihood"][:, p]}
+                    for p in range(policy.decoder.num_paths)]
+        if kind == "ffsp":
+            policy.test_decode_type = "greedy"
+            return [policy(td.clone(), env, phase="test", num_starts=1)]
         if mode == "greedy":
-            return policy(td.clone(), env, decode_type="greedy")
-        return policy(td.clone(), env, decode_type="multistart_greedy", num_starts=KSTART, select_best=True)
+            return [policy(td.clone(), env, decode_type="greedy")]
+        if mode == "multisample":
+            return [policy(td.clone(), env, decode_type="greedy", num_samples=KSTART, select_best=True)]
+        return [policy(td.clone(), env, decode_type="multistart_greedy", num_starts=KSTART, select_best=True)]
 
 
-KSTART = 3
-
-
-def margins_multistart(policy, env, td1):
-    """smallest top-2 margin over the KSTART replicas of ONE instance at every step of its multi-start greedy decode"""
+def margins_best_of(policy, env, td1, mode):
+    """smallest top-2 margin over the KSTART replicas of ONE instance at every step of its best-of-K greedy decode"""
     from rl4co.utils.ops import batchify
     try:
         with torch.no_grad():
-            allr = policy(td1.clone(), env, decode_type="multistart_greedy", num_starts=KSTART, select_best=False)
+            torch.manual_seed(SEED)
+            if mode == "multistart":
+                allr = policy(td1.clone(), env, decode_type="multistart_greedy", num_starts=KSTART, select_best=False)
+            else:
+                allr = policy(td1.clone(), env, decode_type="greedy", num_samples=KSTART, select_best=False)
             actions = allr["actions"]
             td = td1.clone()
             hidden, _ = policy.encoder(td)
             td = batchify(td, KSTART)
-            td.set("action", actions[:, 0])
-            td = env.step(td)["next"]
+            out, t0 = [], 0
+            if mode == "multistart":
+                td.set("action", actions[:, 0])
+                td = env.step(td)["next"]
+                out, t0 = [BIG], 1
             td, env, hidden = policy.decoder.pre_decoder_hook(td, env, hidden, KSTART)
-            out = [1_000_000]
-            for t in range(1, actions.shape[1]):
+            for t in range(t0, actions.shape[1]):
                 logits, mask = policy.decoder(td, hidden, KSTART)
                 lp = masked_logp(logits, mask, policy.tanh_clipping, policy.temperature)
-                worst = 1_000_000
-                for r in range(lp.shape[0]):
-                    top = torch.topk(lp[r], min(2, lp.shape[1])).values
-                    if top.numel() == 2 and torch.isfinite(top[1]):
-                        worst = min(worst, int(round(float(top[0] - top[1]) * 1e6)))
-                out.append(worst)
+                out.append(min(_margin(lp[r]) for r in range(lp.shape[0])))
                 td.set("action", actions[:, t])
                 td = env.step(td)["next"]
         return out
@@ -124,20 +261,18 @@ def run(tier, seed):
     torch.manual_seed(seed)
     recs, skipped = [], []
     n_inst = 4 if tier == "quick" else 12
-    matrix = [(a, b, c, {}) for (a, b, c) in policy_matrix(tier)]
-    # OP with a generous budget: tours end at the depot while other nodes are still affordable, so a finished row that is
-    # stepped on next to slower batch-mates has a real choice
-    from rl4co.models.zoo import AttentionModelPolicy
-    matrix.append(("AM", "op", lambda: AttentionModelPolicy(env_name="op", embed_dim=32, num_encoder_layers=2, num_heads=2),
-                   {"max_length": 4.0}))
-    for (pname, ename, mk, gpx) in matrix:
+    for entry in policy_matrix(tier):
+        pname, ename, gpx, kind = entry["name"], entry["env"], entry["gpx"], entry["kind"]
         try:
-            gp = {"num_loc": 10 if tier == "quick" else rnd.choice([10, 20])}
-            gp.update(gpx)
+            n_loc = 10 if tier == "quick" else rnd.choice([10, 20])
+            gp = dict(entry["gp"]) if entry["gp"] is not None else {"num_loc": n_loc}
+            gp.update(gpx)                         # (AM/mtvrp: variant_preset "all" = mixed variants in one batch)
             if ename == "mtvrp":
-                gp["variant_preset"] = "all"          # mixed variants in one batch
+                gp["variant_preset"] = "all"
             env = get_env(ename, generator_params=gp)
-            policy = mk().eval()
+            policy = entry["mk"]().eval()
+            if entry["prep"] is not None:
+                policy = entry["prep"](policy)
             tdg = env.generator(batch_size=[n_inst])
         except Exception as e:
             skipped.append("%s/%s: %s" % (pname, ename, str(e)[:80]))
@@ -150,50 +285,64 @@ def run(tier, seed):
         perm = list(range(n_inst))
         rnd.shuffle(perm)
         comps.append(perm)
-        modes = ["greedy"] + (["multistart"] if (ename in MULTISTART and pname == "AM") else [])
+        modes = ["greedy"] + ([entry["best_of"]] if entry["best_of"] else [])
         for mode in modes:
             solos = []
             for i in range(n_inst):
                 td1 = env.reset(tdg[i:i + 1].clone())
-                o = decode(policy, env, td1, mode)
-                T = o["actions"].shape[1]
-                m = margins(policy, env, td1, o["actions"]) if mode == "greedy" else margins_multistart(policy, env, td1)
-                if m is None:
-                    m = [1_000_000] * T                   # no margin information: every step is constrained
-                m = (list(m) + [1_000_000] * T)[:T]
-                solos.append({"actions": [int(a) + 1 for a in o["actions"][0].tolist()],
-                              "reward": int(round(float(o["reward"][0]) * 1e6)),
-                              "ll": int(round(float(o["log_likelihood"][0]) * 1e6)), "margin": m})
-            rows = [[] for _ in range(n_inst)]
+                streams = []
+                for s, o in enumerate(decode(policy, env, td1, mode, kind)):
+                    T = o["actions"].shape[1]
+                    with torch.no_grad():
+                        if kind == "mdam":
+                            m = margins_mdam(policy, env, td1, o["actions"], s)
+                        elif kind == "ffsp":
+                            m = margins_ffsp(policy, env, td1, o["actions"])
+                        elif mode == "greedy":
+                            m = margins(policy, env, td1, o["actions"])
+                        else:
+                            m = margins_best_of(policy, env, td1, mode)
+                    if m is None:
+                        m = [BIG] * T                         # no margin information: every step is constrained
+                    m = (list(m) + [BIG] * T)[:T]
+                    streams.append({"actions": [int(a) + 1 for a in o["actions"][0].tolist()],
+                                    "reward": int(round(float(o["reward"][0]) * 1e6)),
+                                    "ll": int(round(float(o["log_likelihood"][0]) * 1e6)), "margin": m})
+                solos.append(streams)
+            n_streams = len(solos[0])
+            rows = [[[] for _ in range(n_streams)] for _ in range(n_inst)]
             for comp in (comps if mode == "greedy" else comps[n_inst:]):
                 td = env.reset(tdg[torch.tensor(comp)].clone())
-                o = decode(policy, env, td, mode)
-                for pos, i in enumerate(comp):
-                    a = [int(x) + 1 for x in o["actions"][pos].tolist()]
-                    T = len(solos[i]["actions"])
-                    if len(a) < T:
-                        a = a + [0] * (T - len(a))    # shorter than the solo decode: mismatch shows at the first missing step
-                    rows[i].append({"actions": a, "reward": int(round(float(o["reward"][pos]) * 1e6)),
-                                    "ll": int(round(float(o["log_likelihood"][pos]) * 1e6)), "size": len(comp), "pos": pos})
+                for s, o in enumerate(decode(policy, env, td, mode, kind)):
+                    for pos, i in enumerate(comp):
+                        a = [int(x) + 1 for x in o["actions"][pos].tolist()]
+                        T = len(solos[i][s]["actions"])
+                        if len(a) < T:
+                            a = a + [0] * (T - len(a))    # shorter than the solo decode: mismatch shows at the first missing step
+                        rows[i][s].append({"actions": a, "reward": int(round(float(o["reward"][pos]) * 1e6)),
+                                           "ll": int(round(float(o["log_likelihood"][pos]) * 1e6)), "size": len(comp), "pos": pos})
             for i in range(n_inst):
-                recs.append({"policy": pname, "env": ename + ("" if not gpx else "(%s)" % ",".join("%s=%s" % kv for kv in gpx.items()))
-                             + ("" if mode == "greedy" else "/multistart-best"), "inst": i,
-                             "solo": solos[i], "rows": rows[i], "pad": 1, "cmp_actions": mode == "greedy"})
+                for s in range(n_streams):
+                    recs.append({"policy": pname, "env": ename + ("" if not gpx or ename == "mtvrp" else "(%s)" % ",".join("%s=%s" % kv for kv in gpx.items()))
+                                 + ("" if n_streams == 1 else "/path%d" % s)
+                                 + ("" if mode == "greedy" else "/%s-best" % mode), "inst": i,
+                                 "solo": solos[i][s], "rows": rows[i][s], "pad": entry["pad"], "cmp_actions": mode == "greedy"})
     fails, _, st, ended = validate_records("InferTrace", recs, INV, "c14")
     viol = []
     for f in fails:
         rec = recs[f[0]]
         bad = [r for r in rec["rows"] if r["actions"][: len(rec["solo"]["actions"])] != rec["solo"]["actions"]
-               or abs(r["reward"] - rec["solo"]["reward"]) > 100][:3]
+               or abs(r["reward"] - rec["solo"]["reward"]) > 100 or abs(r["ll"] - rec["solo"]["ll"]) > 100][:3]
         viol.append({"property": "C14", "env": rec["policy"] + "/" + rec["env"], "monitor": f[1], "inst": {"instance": rec["inst"]},
                      "actions": rec["solo"]["actions"],
-                     "detail": "step %s; solo reward %s ll %s; differing rows (size,pos,actions,reward): %s"
-                               % (f[2], rec["solo"]["reward"], rec["solo"]["ll"], [(r["size"], r["pos"], r["actions"], r["reward"]) for r in bad])})
+                     "detail": "step %s; solo reward %s ll %s; differing rows (size,pos,actions,reward,ll): %s"
+                               % (f[2], rec["solo"]["reward"], rec["solo"]["ll"],
+                                  [(r["size"], r["pos"], r["actions"], r["reward"], r["ll"]) for r in bad])})
     n_new, n_known = verdict.report("C14", viol)
     ties = sum(1 for r in recs if min(r["solo"]["margin"]) <= 20)
     cov = {"evaluations": sum(len(r["rows"]) for r in recs), "distinct_nontrivial": len(recs),
-           "rule": "one record per (policy, env, generated instance): solo greedy decode vs the same instance at every position of batches of "
-                   "copies / unrelated instances / sizes 2..32; non-trivial = every record (>= 10 nodes, >= 9 decoding steps)",
+           "rule": "one record per (policy, env, generated instance[, path]): solo greedy decode vs the same instance at every position of batches of "
+                   "copies / unrelated instances / sizes 2..32; non-trivial = every record (>= 10 nodes or 5 jobs x 3 machines, >= 9 decoding steps)",
            "states": st, "transitions": st, "traces_validated_against_impl": len(recs),
            "samples": [{k: recs[0][k] for k in ("policy", "env", "solo")}, {"row": recs[0]["rows"][0]}] if recs else [{}],
            "matrix": sorted({r["policy"] + "/" + r["env"] for r in recs}), "skipped": skipped, "records_with_a_tie_step": ties,
@@ -201,6 +350,7 @@ def run(tier, seed):
            "explanation": "trace validation of an opaque function against the per-row refinement specification InferTrace.tla"}
     verdict.write_evidence("C14", tier, seed, "exploration", cov,
                            ["the network is uninterpreted: no model-level exhaustiveness is claimed",
-                            "ties (top-2 margin <= 2e-5) release the row from the comparison, as the property allows"],
+                            "ties (top-2 margin <= 2e-5) release the row from the comparison, as the property allows",
+                            "MatNet's random one-hot column embedding is drawn per instance (keyed generator), i.e. taken as part of the instance"],
                            time.time() - t0, n_new)
     return 1 if n_new else 0
